@@ -111,6 +111,33 @@ fn classify(s: &Setup, w: &[&str], want: &str, got: &str) -> &'static str {
     "source-view-mismatch"
 }
 
+/// A tar archive [first.x = "ok", last.x = `len` bytes] truncated `cut` bytes before the end of last.x's data: the source
+/// may refuse the archive or fail to read `last.x`; it must not hand out a prefix. `first.x` stays readable.
+fn trunc_probe(len: usize, cut: usize, on_disk: bool) -> String {
+    use assets_manager::source::Tar;
+    let data: Vec<u8> = (0..len).map(|i| (i * 7 + 3) as u8).collect();
+    let ms = vec![Member { is_file: true, path: "first.x".into(), bytes: b"ok".to_vec() }, Member { is_file: true, path: "last.x".into(), bytes: data.clone() }];
+    let Ok(full) = build_tar(&ms) else { return "harness-error".into() };
+    // header(512) + first data padded (512) + header(512) + last data: cut inside it
+    let end_of_last = 512 * 3 + len;
+    if full.len() < end_of_last { return "harness-error".into(); }
+    let bytes = full[..end_of_last - cut].to_vec();
+    let tmp;
+    let tar: Box<dyn Source> = if on_disk {
+        tmp = TempRoot::new();
+        let p = tmp.0.join("t.tar");
+        if std::fs::write(&p, &bytes).is_err() { return "harness-error".into(); }
+        match Tar::open(&p) { Ok(t) => Box::new(t), Err(_) => return "refused".into() }
+    } else { match Tar::from_bytes(bytes) { Ok(t) => Box::new(t), Err(_) => return "refused".into() } };
+    if tar.read("first", "x").map(|c| c.as_ref().to_vec()).ok() != Some(b"ok".to_vec()) { return "garbage".into(); }
+    let last = tar.read("last", "x").map(|c| c.as_ref().to_vec());
+    let out: String = match last {
+        Err(_) => "err".into(),
+        Ok(got) => { if got == data { "whole".into() } else if got.len() < len && data.starts_with(&got) { "prefix".into() } else { "garbage".into() } }
+    };
+    out
+}
+
 static EMBFIX: assets_manager::source::RawEmbedded<'static> = assets_manager::source::embed!("fixtures/embtree");
 
 fn embfix_compare() -> Vec<String> {
@@ -172,6 +199,11 @@ impl Engine for SrcEngine {
             return l;
         }
         if idx == N_SMALL * per_tree { return vec!["embfix".into()]; }
+        if idx == N_SMALL * per_tree + 1 || (idx > N_SMALL * per_tree + 1 && idx % 40 == 7) {
+            // a tar archive cut short inside the data of its last member (in memory and on disk)
+            let len = rng.range(2, if tier == Tier::Thorough { 5000 } else { 700 });
+            return vec![format!("trunc {len} {} {}", rng.range(1, len - 1), if rng.chance(1, 2) { "mem" } else { "file" })];
+        }
         let t = gen_tree(rng, tier);
         let kind = KINDS[idx % 4];
         let dm = *rng.pick(&[DirMembers::All, DirMembers::All, DirMembers::None, DirMembers::Some]);
@@ -239,6 +271,14 @@ impl Engine for SrcEngine {
                             }
                         }
                     }
+                }
+                "trunc" => {
+                    let (len, cut, on_disk) = (w[1].parse::<usize>().unwrap_or(16).max(2), w[2].parse::<usize>().unwrap_or(1).max(1), w.get(3) == Some(&"file"));
+                    let out = trunc_probe(len, cut.min(len - 1), on_disk);
+                    rec.nontrivial = true;
+                    rec.stat(format!("trunc/{out}"));
+                    if out == "prefix" || out == "garbage" { fresh.push(format!("truncated-member-read-as-prefix tar source: a member of {len} bytes whose data was cut by {cut} bytes was read back successfully ({out}) instead of failing")); }
+                    rec.op("src.trunc".to_string(), if out == "prefix" || out == "garbage" { out } else { "err-or-refused".to_string() });
                 }
                 "embfix" => {
                     // the `embed!` macro itself (compile-time table over harness/fixtures/embtree) against FileSystem over the same directory
